@@ -333,6 +333,8 @@ def run_fsm(ctx, chk, tables, prop='C03', focus=None):
                 nxt, evs, care = ref_step(rstate, c, utf8)
                 if focus == 'osc' and rname not in (OC, OS, OE) and not (nxt in (OC, OS, OE)):
                     care_here = False
+                elif focus == 'modes':
+                    care_here = False
                 elif focus == 'charset' and not (rname == ECS or (isinstance(nxt, tuple) and nxt[0] == ECS) or (rname == G and c in '\x0e\x0f')):
                     care_here = False
                 else:
@@ -360,7 +362,9 @@ def run_fsm(ctx, chk, tables, prop='C03', focus=None):
                              what='in state %s on %r (%s mode): %s' % (_sname(rstate), c, 'UTF-8' if utf8 else '8-bit', why))
     if focus is None:
         data_path(F, chk, seen, grounds[0])
-    chk.floor('automaton transitions compared', ntrans, 300 if focus is None else 20)
+    elif focus == 'modes':
+        data_path(F, chk, seen, grounds[0], only_modes=True)
+    chk.floor('automaton transitions compared', ntrans, 300 if focus is None else (0 if focus == 'modes' else 20))
     chk.cov['reference_states_reached'] = sorted({_sname(r) for r, s in seen})
     chk.cov['state_site_pairs'] = len(seen)
     F.pairs = seen
@@ -368,7 +372,7 @@ def run_fsm(ctx, chk, tables, prop='C03', focus=None):
     return F
 
 
-def data_path(F, chk, seen, ground):
+def data_path(F, chk, seen, ground, only_modes=False):
     """data-path clauses of the CSI collector, from the generalised ESC / CSI states:
     `;` pushes exactly one parameter and dispatches nothing; a digit pushes nothing; a final pushes
     exactly one parameter before its single dispatch; `?` makes the dispatch private; a fresh CSI is
@@ -383,7 +387,7 @@ def data_path(F, chk, seen, ground):
     def calls(evs):
         return [e for e in evs if e[0] not in ('<-', 'push', 'strpush')]
     n = 0
-    for cs in csi_sites:
+    for cs in ([] if only_modes else csi_sites):
         for (c, want_push, what) in ((';', 1, 'separator'), ('5', 0, 'digit'), ('?', 0, 'private marker'), (' ', 0, 'skipped SP'), ('>', 0, 'skipped >')):
             outs = F.step(cs, [c])
             bad = [o for o in outs if len(pushes(o[1])) != want_push or calls(o[1])]
@@ -406,20 +410,26 @@ def data_path(F, chk, seen, ground):
         n += 1
         chk.instance('R-FSM', name, 'CSI data: parameter after ; starts empty (0)', not bad and bool(outs), detail='outcomes %s' % sorted(outs, key=str)[:3],
                      what='after `;` an immediately following final must push 0: %s' % sorted(bad, key=str)[:2])
+    mode_scripts = ((['[', 'h'], ('csi_dispatch', 'h', (0,), False), 'fresh CSI: empty parameter is 0, not private'),
+                    (['[', '2', '0', 'h'], ('csi_dispatch', 'h', (20,), False), 'SM 20 is not private'),
+                    (['[', '4', ';', '2', '0', 'l'], ('csi_dispatch', 'l', (4, 20), False), 'RM list is not private'),
+                    (['[', '?', '2', '5', 'l'], ('csi_dispatch', 'l', (25,), True), 'private parameter'),
+                    (['[', '?', '6', 'h'], ('csi_dispatch', 'h', (6,), True), 'private SM'))
     for es in esc_sites:
-        for (script, want, what) in ((['[', 'h'], ('csi_dispatch', 'h', (0,), False), 'fresh CSI: empty parameter is 0, not private'),
+        for (script, want, what) in (mode_scripts if only_modes else (
+                                     (['[', 'h'], ('csi_dispatch', 'h', (0,), False), 'fresh CSI: empty parameter is 0, not private'),
                                      (['[', '5', 'h'], ('csi_dispatch', 'h', (5,), False), 'one digit'),
                                      (['[', '1', '2', ';', '3', 'H'], ('csi_dispatch', 'H', (12, 3), False), 'decimal accumulation, two parameters'),
                                      (['[', '?', '2', '5', 'l'], ('csi_dispatch', 'l', (25,), True), 'private parameter'),
                                      (['[', '9', '9', '9', '9', '9', 'C'], ('csi_dispatch', 'C', (9999,), False), 'cap at 9999'),
-                                     (['[', '1', ';', 'm'], ('csi_dispatch', 'm', (1, 0), False), 'trailing empty parameter')):
+                                     (['[', '1', ';', 'm'], ('csi_dispatch', 'm', (1, 0), False), 'trailing empty parameter'))):
             outs = F.step(es, script)
             got = [[e for e in o[1] if e[0] == 'csi_dispatch'] for o in outs]
             ok = bool(outs) and all(g == [want] for g in got) and all(o[0] == F.sites.index(ground) for o in outs)
             n += 1
             chk.instance('R-FSM', name, 'CSI data witness: %s' % what, ok, detail='script ESC %s -> %s' % (''.join(script), got),
                          what='ESC %s must dispatch %s and return to ground, extracted %s' % (''.join(script), want, got))
-    chk.floor('CSI data-path clauses', n, 10)
+    chk.floor('CSI data-path clauses', n, 5 if only_modes else 10)
 
 
 def _sname(s):
